@@ -2,22 +2,44 @@ package pipeprops
 
 import "verif/sim/driver"
 
-// elements of input i are distinct and attributable: 1000*(i+1)+index.
+// elements of input i are distinct and attributable: 1000*i+index (the very
+// first element is 0: the zero value must travel like any other).
 func elems(input, n int) []int {
 	out := make([]int, n)
 	for k := range out {
-		out[k] = 1000*(input+1) + k
+		out[k] = 1000*input + k
 	}
 	return out
 }
 
-var caps = []int{0, 1, 2, 5}
+var caps = []int{0, 1, 2, 5, 16}
 
 func genLen(r *driver.Rand, thorough bool) int {
+	// rare long inputs: sizes around powers of two, where chunking or
+	// buffering mistakes live
+	if (thorough && r.Chance(1, 15)) || r.Chance(1, 50) {
+		return driver.Pick(r, 17, 33, 64, 65, 100, 128, 129, 257)
+	}
 	if thorough && r.Chance(1, 4) {
 		return r.Intn(41)
 	}
 	return r.Intn(7)
+}
+
+// genValues replaces the attributable default elements by a sequence over a
+// tiny alphabet: zeros, negatives, repeats and runs of equal values. Only for
+// stages whose model is a pure list function (no attribution needed).
+func genValues(r *driver.Rand, n int) []int {
+	out := make([]int, n)
+	alpha := []int{0, 0, 1, -1, 2, 7, 7}
+	for i := range out {
+		if i > 0 && r.Chance(1, 3) {
+			out[i] = out[i-1]
+		} else {
+			out[i] = alpha[r.Intn(len(alpha))]
+		}
+	}
+	return out
 }
 
 func genDelays(r *driver.Rand) []int {
